@@ -105,3 +105,42 @@ Proof.
     apply (A2 (lid (fst (label t (length seqs))))).
     rewrite act_final_acts, Hs. apply tree_final_act; assumption.
 Qed.
+
+(* ---- C10 for every guide tree and every family of well-formed raw paths ---- *)
+Lemma valid_runb_app seqs : forall t1 t2 st act, valid_runb seqs st act (t1 ++ t2) = true ->
+  valid_runb seqs st act t1 = true /\ valid_runb seqs (run_from st t1) (act_final act t1) t2 = true.
+Proof.
+  induction t1 as [|[[[a b] c] ops] t1 IH]; intros t2 st act H; [split; [reflexivity|exact H]|].
+  cbn [app valid_runb] in H. apply andb_true_iff in H as [H1 H2].
+  destruct (IH t2 _ _ H2) as (A & B). split.
+  - cbn [valid_runb]. rewrite H1, A. reflexivity.
+  - cbn [run_from fold_left act_final]. exact B.
+Qed.
+
+Theorem blocks_preserved_every_tree_every_wf_path : forall seqs,
+  Forall (Forall (fun c => c <> dash)) seqs ->
+  forall t, NoDup (leaves t) -> (forall i, In i (leaves t) <-> i < length seqs) ->
+  forall paths tasks,
+  build_tasks seqs (st0 seqs) (sort_tasks (tasks_of (fst (label t (length seqs))))) paths = Some tasks ->
+  forall t1 t2, tasks = t1 ++ t2 ->
+  let mid := run_from (st0 seqs) t1 in
+  forall x S, In x (act_final (seq 0 (length seqs)) t1) -> incl S (members mid x) ->
+  strip_allgap (map (row_of seqs (run_from (st0 seqs) tasks)) S) = strip_allgap (map (row_of seqs mid) S).
+Proof.
+  intros seqs Hd t Hnd Hlv paths tasks Hb t1 t2 E mid x S Hx HS.
+  assert (forall i, In i (leaves t) -> i < length seqs) as Hlt by (intros i; apply Hlv).
+  destruct (build_valid seqs (sort_tasks (tasks_of (fst (label t (length seqs))))) paths (st0 seqs) (seq 0 (length seqs)) tasks) as (Hv & _); [apply st0_inv2; exact Hd| |apply tree_schedule_ok; assumption| |exact Hb|].
+  - intros y Hy. apply in_seq in Hy. rewrite st0_members by lia. discriminate.
+  - rewrite st0_sip_length. apply sort_tasks_Forall. pose proof (tasks_in (fst (label t (length seqs)))) as Hin.
+    eapply Forall_impl; [|exact Hin]. intros [[a b] c] (_ & _ & Hc). unfold tc. cbn [snd].
+    pose proof (label_spec t (length seqs)) as (_ & H2 & _). pose proof (label_bound t (length seqs)) as (Hb1 & Hb2).
+    assert (length (leaves t) <= length seqs) as Hle.
+    { apply NoDup_incl_length with (l' := seq 0 (length seqs)) in Hnd; [rewrite seq_length in Hnd; exact Hnd|].
+      intros i Hi. apply in_seq. specialize (Hlt _ Hi). lia. }
+    destruct (H2 _ Hc) as [Q|Q]; [specialize (Hlt _ Q); lia|lia].
+  - subst tasks. destruct (valid_runb_app seqs t1 t2 _ _ Hv) as (V1 & V2).
+    pose proof (valid_runb_inv2 seqs t1 (st0 seqs) (seq 0 (length seqs)) (st0_inv2 seqs Hd) V1) as HI. fold mid in HI, V2.
+    destruct (inv2_width seqs _ _ HI x Hx) as (w & Wx & _).
+    unfold run_from at 1. rewrite fold_left_app. fold (run_from (st0 seqs) t1). fold mid. fold (run_from mid t2).
+    apply (run_preserves_blocks seqs t2 mid (act_final (seq 0 (length seqs)) t1) (inv2_inv seqs _ _ HI) (valid_runb_ok seqs t2 _ _ V2) S x w Hx HS Wx).
+Qed.
